@@ -96,6 +96,9 @@ func (spm *PublicMaterial[PK, PKFE, SG, SGFE, E, S]) UnmarshalCBOR(data []byte) 
 	}
 
 	spm.BasePublicMaterial = *dto.Base
+	// drop the cached public key: spm may have held (and served) another key
+	spm.pk = nil
+	spm.pkOnce = sync.Once{}
 	return nil
 }
 
@@ -200,6 +203,9 @@ func (s *Shard[PK, PKFE, SG, SGFE, E, S]) UnmarshalCBOR(data []byte) error {
 		return ErrIsNil.WithMessage("missing required field in shard")
 	}
 	s.BaseShard = *dto.Base
+	// drop the cached public key: s may have held (and served) another key
+	s.pk = nil
+	s.pkOnce = sync.Once{}
 	return nil
 }
 
